@@ -27,8 +27,8 @@ pub fn prop() -> Prop {
         id: "C10",
         level: "exploration",
         runs: |t| match t {
-            Tier::Quick => 1600,
-            Tier::Thorough => 16000,
+            Tier::Quick => 1300,
+            Tier::Thorough => 14000,
         },
         generate,
         exec,
@@ -61,7 +61,11 @@ fn gen_c<C: Suite>(seed: u64, run: u64, tier: Tier) -> Scenario {
         (Tier::Thorough, false, true) => 7,
         (Tier::Thorough, false, false) => 9,
     };
-    let (n, t) = gen_nt(&mut p, 2, max_n);
+    let (mut n, mut t) = gen_nt(&mut p, 2, max_n);
+    if let Some((wn, wt)) = maybe_wide::<C>(&mut p, 16) {
+        n = wn;
+        t = wt;
+    }
     s.n = n;
     s.t = t;
     s.id_scheme = (*p.pick(&ID_SCHEMES)).to_string();
